@@ -6,6 +6,7 @@ EXTENDS DatafileMC
 VersionsAll == {3, 4}
 CrudesAll == {"none", "size", "both"}
 CrudesQ == {"none", "size"}
+CrudesNone == {"none"}
 
 \* quick: <= 2 types, <= 2 items of 0..1 words, <= 2 data blocks
 TypeSetsQ == { << >>, << 0 >>, << 0, 5 >> }
